@@ -526,3 +526,138 @@ Proof.
   destruct F as (-> & _). apply dissect_query_text; try assumption.
   intros ->. discriminate.
 Qed.
+
+(* =========================================================================== *)
+(* 5. uriComposeQueryMallocExMm                                                   *)
+(* =========================================================================== *)
+Local Open Scope Z_scope.
+
+Lemma map_item_len_ok l : lens_ok (map item_len l).
+Proof.
+  apply Forall_forall. intros x Hx. apply in_map_iff in Hx. destruct Hx as [[k' v'] [<- _]].
+  cbn. split; [lia|]. destruct v'; cbn; [lia|trivial].
+Qed.
+
+(* outside the D10 shape the allocating variant either refuses (an oversized item, a total of
+   exactly INT_MAX) or returns the composed text, provided calloc grants total + 1 elements *)
+Theorem compose_malloc_no_wrap cm stp nb l :
+  l <> [] -> sum_wraps nb (map item_len l) = false ->
+  total_size nb (map item_len l) + 1 <= cm ->
+  compose_malloc cm stp nb l =
+    if negb (no_item_too_large nb (map item_len l)) then MErr URI_ERROR_OUTPUT_TOO_LARGE
+    else if total_size nb (map item_len l) =? INT_MAX then MErr URI_ERROR_MALLOC
+    else MOk (query_text stp nb l).
+Proof.
+  intros Hne Hs Hcm. unfold compose_malloc.
+  pose proof (map_item_len_ok l) as Hl.
+  assert (map item_len l <> []) as Hne' by (destruct l; [congruence|discriminate]).
+  pose proof (chars_required_len_no_wrap nb _ Hne' Hl Hs) as Hr.
+  unfold chars_required at 1. rewrite Hr.
+  destruct (no_item_too_large nb (map item_len l)) eqn:En; cbn [negb]; [|reflexivity].
+  pose proof (total_loop_nonneg nb _ true Hl) as Ht. fold (total_size nb (map item_len l)) in Ht.
+  assert (total_size nb (map item_len l) <= INT_MAX) as Hmax
+    by (unfold sum_wraps in Hs; rewrite En in Hs; cbn [andb] in Hs; lia).
+  remember (total_size nb (map item_len l)) as r eqn:Er.
+  destruct (r =? INT_MAX) eqn:Ei; [reflexivity|].
+  rewrite Z.mod_small by (unfold INT_MAX in Hmax; lia).
+  destruct (r + 1 >? cm) eqn:Ec; [lia|].
+  assert (chars_required stp nb l = ZOk r) as Hcr by (unfold chars_required; rewrite Hr; reflexivity).
+  destruct (chars_required_sufficient stp nb l r Hcr Hs (r + 1) ltac:(lia)) as (lg & E & _).
+  rewrite E. reflexivity.
+Qed.
+
+(* =========================================================================== *)
+(* 6. the destination buffer after the stores                                     *)
+(* =========================================================================== *)
+Lemma apply_log_app buf a b : apply_log buf (a ++ b) = apply_log (apply_log buf a) b.
+Proof. revert buf. induction a as [|[i c] a IH]; intros buf; [reflexivity|]. cbn [app apply_log]. apply IH. Qed.
+
+Lemma bset_length : forall buf i v, length (bset buf i v) = length buf.
+Proof. induction buf as [|x buf IH]; intros i v; [reflexivity|]. destruct i; cbn [bset length]; [reflexivity|]. now rewrite IH. Qed.
+
+Lemma apply_log_length : forall log buf, length (apply_log buf log) = length buf.
+Proof. induction log as [|[i c] log IH]; intros buf; [reflexivity|]. cbn [apply_log]. rewrite IH. apply bset_length. Qed.
+
+(* storing t at index |p| of a buffer  p ++ q  with room for t *)
+Lemma apply_wr : forall t p q, (length t <= length q)%nat ->
+  apply_log (p ++ q) (wr (length p) t) = p ++ t ++ skipn (length t) q.
+Proof.
+  induction t as [|c t IH]; intros p q H; [reflexivity|].
+  destruct q as [|x q]; [cbn [length] in H; lia|].
+  rewrite wr_cons. cbn [apply_log].
+  assert (bset (p ++ x :: q) (length p) c = (p ++ [c]) ++ q) as ->.
+  { clear. induction p as [|y p IHp]; [reflexivity|]. cbn [app length bset]. now rewrite IHp. }
+  replace (S (length p)) with (length (p ++ [c])) by (rewrite app_length; cbn [length]; lia).
+  rewrite IH by (cbn [length] in H; lia). rewrite <- app_assoc. reflexivity.
+Qed.
+
+(* invariant: after the stores so far the buffer starts with [out] *)
+Definition buf_has (n : nat) (out : text) (log : wlog) (buf : text) : Prop :=
+  exists q, apply_log buf log = out ++ q /\ length (out ++ q) = n.
+
+Lemma buf_has_wr n out log buf t : buf_has n out log buf -> (length out + length t <= n)%nat ->
+  buf_has n (out ++ t) (log ++ wr (length out) t) buf.
+Proof.
+  intros (q & E & L) H. rewrite app_length in L.
+  exists (skipn (length t) q). rewrite apply_log_app, E. rewrite apply_wr by lia.
+  rewrite <- app_assoc. split; [reflexivity|]. rewrite !app_length, skipn_length. lia.
+Qed.
+
+(* a store sequence t ++ [0] leaves out ++ t in front (the terminator is beyond it) *)
+Lemma buf_has_wr_term n out log buf t : buf_has n out log buf -> (length out + length t + 1 <= n)%nat ->
+  buf_has n (out ++ t) (log ++ wr (length out) (t ++ [0%N])) buf.
+Proof.
+  intros Hb H. pose proof (buf_has_wr n out log buf (t ++ [0%N]) Hb) as W.
+  rewrite app_length in W. cbn [length] in W. specialize (W ltac:(lia)).
+  destruct W as (q & E & L). exists (0%N :: q). rewrite E. rewrite <- !app_assoc. cbn [app].
+  split; [reflexivity|]. rewrite <- L. rewrite <- !app_assoc. reflexivity.
+Qed.
+
+Lemma compose_loop_buffer stp nb maxc n buf : forall l first out log,
+  Z.of_nat n = maxc + 1 -> Z.of_nat (length out) <= maxc -> buf_has n out log buf ->
+  match compose_loop stp nb maxc first out log l with
+  | COk out' _ log' => buf_has n (out' ++ [0%N]) log' buf
+  | CErr _ out' log' => buf_has n out' log' buf
+  end.
+Proof.
+  induction l as [|[k v] r IH]; intros first out log Hn Hout Hb.
+  { cbn [compose_loop]. apply buf_has_wr; [assumption|]. cbn [length]. lia. }
+  cbn [compose_loop].
+  destruct (item_too_large nb _ _); [assumption|].
+  destruct (_ >? maxc) eqn:Ek; [assumption|]. cbv zeta.
+  pose proof (escape_len_Z stp nb k) as Bk. pose proof (worst_case_pos nb) as Hw.
+  match goal with |- context [ ?x ++ escape stp nb k ] => set (out1 := x) in * end.
+  match goal with |- context [ ?x ++ wr (length out1) _ ] => set (log1 := x) in * end.
+  assert (Z.of_nat (length out1) = Z.of_nat (length out) + (if first then 0 else 1)) as Lout1.
+  { unfold out1. destruct first; [lia|]. rewrite app_length. cbn [length]. lia. }
+  assert (buf_has n out1 log1 buf) as Hb1.
+  { unfold out1, log1. destruct first; [assumption|]. apply buf_has_wr; [assumption|]. cbn [length]. nia. }
+  assert (buf_has n (out1 ++ escape stp nb k) (log1 ++ wr (length out1) (escape stp nb k ++ [0%N])) buf) as Hb2.
+  { apply buf_has_wr_term; [assumption|]. lia. }
+  assert (Z.of_nat (length (out1 ++ escape stp nb k)) <= maxc) as Lout2 by (rewrite app_length; lia).
+  destruct v as [t|].
+  - destruct (Z.of_nat (length (out1 ++ escape stp nb k)) + 1 + _ >? maxc) eqn:Ev; [assumption|].
+    pose proof (escape_len_Z stp nb t) as Bt.
+    apply IH; [assumption| |].
+    + rewrite !app_length in *. cbn [length]. lia.
+    + apply buf_has_wr_term.
+      * apply buf_has_wr; [assumption|]. cbn [length]. nia.
+      * rewrite !app_length in *. cbn [length]. lia.
+  - apply IH; assumption.
+Qed.
+
+(* on success the buffer holds the text and its terminator in cells 0 .. length, whatever it
+   held before and however large (>= maxChars) it is *)
+Theorem compose_ex_buffer stp nb cap l out w log buf :
+  compose_ex false stp nb cap l = COk out w log -> Z.of_nat (length buf) = cap ->
+  firstn (length out + 1) (apply_log buf log) = out ++ [0%N].
+Proof.
+  unfold compose_ex. destruct l as [|it r]; [discriminate|].
+  destruct (cap <? 1) eqn:Ec; [discriminate|]. intros H Hlen.
+  pose proof (compose_loop_buffer stp nb (cap - 1) (length buf) buf (it :: r) true [] []) as B.
+  rewrite H in B. cbn [length] in B.
+  destruct B as (q & E & L); [lia|lia| |].
+  { exists buf. split; reflexivity. }
+  rewrite E. replace (length out + 1)%nat with (length (out ++ [0%N])) by (rewrite app_length; reflexivity).
+  rewrite firstn_app, Nat.sub_diag, firstn_all. cbn [firstn]. apply app_nil_r.
+Qed.
